@@ -3,6 +3,7 @@ package checks
 import (
 	"fmt"
 	"math/rand"
+	"os"
 	"sort"
 	"strconv"
 	"strings"
@@ -343,3 +344,5 @@ func startServer(r *ev.Run, label string, mod func(o *srv.Options)) (*srv.Server
 
 	return srv.Start(opts)
 }
+
+func osRemoveAll(dir string) error { return os.RemoveAll(dir) }
